@@ -2,6 +2,7 @@
 from ..eng import EngineModel
 from .. import rules_state as rs
 from .. import rules_query as rq
+from .. import rules_extra as rx
 
 
 def check(repo, rep, tier):
@@ -21,5 +22,6 @@ def check(repo, rep, tier):
     rq.rule_atomic_load(em, rep, 'C04.I6b')
     rs.rule_queries_read_only(em, rep, 'C04.I7')
     rs.rule_context_not_written(em, rep, 'C04.I2b')
+    rx.rule_no_definition_time_state(em, rep, 'C04.I8')
     fr = rs.Freshness(em)
     rs.rule_fresh_per_use(em, rep, 'C04.I10', fr)
